@@ -118,7 +118,15 @@ def r1_entries(chk: Check) -> None:
         tgt = unparse(st.targets[0]) if isinstance(st, ast.Assign) else None
         chk.decide(bool(runs) and tgt is not None and unparse(runs[0].func).startswith(tgt + "."), "C13.R1", loop, "the seeded class is the one that runs", "run() is called on the unseeded class", loop.loc())
         p_ = parent(st) if st is not None else None
-        chk.decide(isinstance(p_, ast.If) and (m_ := pmatch("$s is not None", p_.test)) is not None and same_var(m_["s"], sa_), "C13.R1", loop, "unseeded branch only when no seed is configured", "guard not recognised", loop.loc())
+        construct = "unseeded branch only when no seed is configured"
+        if isinstance(p_, ast.If) and (m_ := pmatch("$s is not None", p_.test)) is not None and same_var(m_["s"], sa_):
+            chk.ok("C13.R1", loop, construct, "", loop.loc(p_))
+        elif isinstance(p_, ast.If) and isinstance(p_.test, ast.Name) and same_var(p_.test, sa_):
+            chk.violation("C13.R1", loop, construct,
+                          f"`if {p_.test.id}:` tests the seed's TRUTHINESS: `--seed 0` (a legal seed, which the other phases honour) runs the state machine unseeded - two runs with seed 0 send different request sequences in the stateful phase",
+                          loop.loc(p_))
+        else:
+            chk.undecided("C13.R1", loop, construct, "guard not recognised", loop.loc())
 
 
 def r2_entropy(chk: Check) -> None:
